@@ -13,6 +13,16 @@ HOSTILE_REL = [b"../x", b"../../x", b"a/../../x", b"a/../../../b/x", b"..", b"./
                b".. /x", b" ../x", b"../x ", b"..;/x", b"a/..\\../x", b"~/x", b"$HOME/x", b"x:y", b"C:\\x"]
 
 
+# benign-looking prefixes a later normalisation might strip or collapse, composed with hostile payloads
+PREFIXES = [b"./", b".//", b"././", b"././/", b"//", b"a/../", b"a/..//", b"./a/../", b".\\", b" ", b"./ "]
+PAYLOADS = [b"@ABS@/a", b"@ABS@/d/a", b"../x", b"../../x", b"..", b"/", b"x/../../y"]
+
+
+def composed(rng):
+    s = b"".join(rng.choice(PREFIXES) for _ in range(rng.choice([1, 1, 2]))) + rng.choice(PAYLOADS)
+    return s
+
+
 class C04(ExtBase):
     id = "C04"
     proof_target = "Props/C04.vo"
@@ -49,6 +59,9 @@ class C04(ExtBase):
                 self.mk(b"..", [3, 3], [b"a", b"b"], kind="corpus"),
                 self.mk(b"../solo", [5], [b"../solo"], single=True, kind="corpus"),
                 self.mk(b"@ABS@/solo", [5], [b"x"], single=True, kind="corpus"),
+                self.mk(b"n", [3, 3], [b"a", b"./@ABS@/abs2"], kind="corpus"),
+                self.mk(b"./@ABS@/solo2", [5], [b"x"], single=True, kind="corpus"),
+                self.mk(b"n", [3, 3], [b"././/@ABS@/abs3", b"b"], kind="corpus"),
                 self.mk(b"ok", [2, 2], [b"a", b"d/b"], kind="benign")]
 
     def gen(self, rng, tier):
@@ -63,10 +76,10 @@ class C04(ExtBase):
             kind = "benign"
             if r < 0.45:      # hostile path in one position
                 i = rng.randrange(k)
-                paths[i] = rng.choice(HOSTILE_REL + [b"@ABS@/a", b"@ABS@/d/a"])
+                paths[i] = composed(rng) if rng.random() < 0.3 else rng.choice(HOSTILE_REL + [b"@ABS@/a", b"@ABS@/d/a"])
                 kind = "hostile-path"
             elif r < 0.7:     # hostile name
-                name = rng.choice(HOSTILE_REL + [b"@ABS@/nm", b"@ABS@"])
+                name = composed(rng) if rng.random() < 0.3 else rng.choice(HOSTILE_REL + [b"@ABS@/nm", b"@ABS@"])
                 kind = "hostile-name"
             elif r < 0.8:     # both
                 name = rng.choice(HOSTILE_REL)
